@@ -15,6 +15,7 @@ pub const ENTRIES: &[Entry] = &[
     Entry { id: "C04", run: crate::c04::run, replay: crate::c04::replay },
     Entry { id: "C05", run: crate::c05::run, replay: crate::c05::replay },
     Entry { id: "C01", run: crate::c01::run, replay: crate::c01::replay },
+    Entry { id: "C06", run: crate::c06::run, replay: crate::c06::replay },
     Entry { id: "C02", run: crate::c02::run, replay: crate::c02::replay },
     Entry { id: "C03", run: crate::c03::run, replay: crate::c03::replay },
     Entry { id: "C07", run: crate::c07::run, replay: crate::c07::replay },
